@@ -98,6 +98,22 @@ fn product_point<N: Fld>(p: &ProdPt) -> Outcome {
         }
         ea.shift = 40;
     }
+    let mut eb = eb;
+    if p.variant == 3 {
+        // a's leading coefficient (2^-7) lies below a's own zero tolerance (2^-6) while the product's leading coefficient
+        // (b's leading coefficient is scaled by 2^10) is far above it: nothing may be dropped from an operand
+        let d = p.m;
+        ea.re[d] = 1;
+        ea.im[d] = 0;
+        for k in 0..d {
+            ea.re[k] <<= 7;
+            ea.im[k] <<= 7;
+        }
+        ea.shift = 7;
+        let e = p.n;
+        eb.re[e] <<= 10;
+        eb.im[e] <<= 10;
+    }
     let (a, b) = (ea.to_c(), eb.to_c());
     let exact = ea.mul(&eb).to_c();
     let (na, nb) = (norm2(&a), norm2(&b));
@@ -105,7 +121,14 @@ fn product_point<N: Fld>(p: &ProdPt) -> Outcome {
     let noise = if pth == "fft" { 32.0 * log2n(a.len(), b.len()) * EPS * na * nb } else { 4.0 * EPS * na * nb };
     let mut pa: Polynomial<N> = mk(&a);
     let pb: Polynomial<N> = mk(&b);
-    let tol = if p.variant == 1 { (4.0 * noise).max(1e-10) } else { 1e-10 };
+    let tol = if p.variant == 1 { (4.0 * noise).max(1e-10) } else if p.variant == 3 { 2.0 * a.last().unwrap().norm() } else { 1e-10 };
+    let _ = &eb;
+    if p.variant == 3 && !(tol > 4.0 * noise) {
+        // variant 3 (the polynomial's own zero tolerance lies ABOVE its leading coefficient, while the product's leading
+        // coefficient is far above it) needs a tolerance above the rounding noise: not for this pair
+        o.sig = format!("{}|{}|v3|not-applicable", pth, N::NAME);
+        return o;
+    }
     pa.set_tolerance(tol).unwrap();
     let ctx = || format!("deg {} x deg {} patterns {}/{} {} variant {} (path {})", p.m, p.n, PATTERNS[p.pat], PATTERNS[(2 * p.pat + 1) % 6], N::NAME, p.variant, pth);
     let r = vcore::guard(|| (asc(&(&pa * &pb)), asc(&(&pb * &pa))));
@@ -167,7 +190,7 @@ impl Check for Products {
             for &n in &ds {
                 for pat in 0..6 {
                     for complex in [false, true] {
-                        for variant in 0..3u8 {
+                        for variant in 0..4u8 {
                             if variant == 2 && (pat != 0 && pat != 5 || m == 0) {
                                 continue;
                             }
@@ -366,8 +389,9 @@ fn dft_point<N: Fld>(p: &DftPt) -> Outcome {
         Err(m) => o.viol("polynomial::dft", "no-panic", format!("{}: {}", ctx(), m)),
         Ok(v) => {
             let n = v.len();
-            if n < p.size || !n.is_power_of_two() {
-                o.viol("polynomial::dft", "length", format!("{}: returned {} values", ctx(), n));
+            // documented: "k points where k is the smallest power of 2 greater than or equal to size"
+            if n != p.size.max(a.len()).next_power_of_two() {
+                o.viol("polynomial::dft", "length", format!("{}: returned {} values, the smallest power of two >= size is {}", ctx(), n, p.size.max(a.len()).next_power_of_two()));
             } else {
                 // the implementation accumulates its twiddle factors by repeated multiplication, so their error grows
                 // linearly with the transform length; the bound allows for that (log term + N/4)
